@@ -41,12 +41,38 @@ def _run_task(task_name, target, kwargs, env):
     try:
         modname, fn = target.split(':')
         mod = importlib.import_module(modname)
+        from pyvc import interp as _interp
+        _interp.HOOKED_SIGNATURES.clear()
         r = getattr(mod, fn)(**kwargs)
         r['task'] = task_name
         r['wall_s'] = time.time() - t0
+        _check_callee_signatures(task_name, r, dict(_interp.HOOKED_SIGNATURES))
         return r
     except Exception:
         return {'task': task_name, 'crash': traceback.format_exc(), 'wall_s': time.time() - t0}
+
+
+SIGNATURES = os.path.join(HERE, 'props', 'callee_signatures.json')
+
+
+def _check_callee_signatures(task_name, r, hooked):
+    """A callee used BY CONTRACT inside a task must still have the parameter list the contract was written for (committed in
+    props/callee_signatures.json).  A changed list makes the task undecided: the contract says nothing about the new parameter."""
+    if not hooked:
+        return
+    base = {}
+    if os.path.exists(SIGNATURES):
+        with open(SIGNATURES) as f:
+            base = json.load(f)
+    if os.environ.get('PYVC_WRITE_BASELINE') == '1' and not os.environ.get('VERIF_REPO'):
+        r.setdefault('callee_signatures', {}).update(hooked)
+        return
+    for spec, params in sorted(hooked.items()):
+        want = base.get(spec)
+        if want is not None and want != params:
+            r['obligations'].append({'name': 'contract-use/%s/callee-signature-is-the-one-the-contract-was-written-for' % spec, 'status': 'undecided',
+                                     'detail': 'task %s uses %s by contract; parameters are now %r, the contract covers %r' % (task_name, spec, params, want),
+                                     'model': {}, 'time_s': 0, 'backend': 'engine', 'path': None, 'kind': 'engine', 'goal': None})
 
 
 def run_tasks(tasks, jobs=None):
@@ -56,6 +82,7 @@ def run_tasks(tasks, jobs=None):
     if jobs == 1 or len(tasks) == 1:
         for t in tasks:
             results.append(_run_task(t.name, t.target, t.kwargs, env))
+        _merge_signatures(results)
         return results
     ctx = multiprocessing.get_context('spawn')
     with concurrent.futures.ProcessPoolExecutor(max_workers=min(jobs, len(tasks)), mp_context=ctx) as ex:
@@ -65,7 +92,22 @@ def run_tasks(tasks, jobs=None):
                 results.append(f.result())
             except Exception:
                 results.append({'task': '?', 'crash': traceback.format_exc(), 'wall_s': 0})
+    _merge_signatures(results)
     return results
+
+
+def _merge_signatures(results):
+    new = {}
+    for r in results:
+        new.update(r.pop('callee_signatures', {}) if isinstance(r, dict) else {})
+    if new and os.environ.get('PYVC_WRITE_BASELINE') == '1' and not os.environ.get('VERIF_REPO'):
+        base = {}
+        if os.path.exists(SIGNATURES):
+            with open(SIGNATURES) as f:
+                base = json.load(f)
+        base.update(new)
+        with open(SIGNATURES, 'w') as f:
+            json.dump(base, f, indent=0, sort_keys=True)
 
 
 def load_known():
